@@ -28,8 +28,7 @@ theorem oneStrand_unpack (l : Loc) (h : oneStrand l = true) : ∃ s, ∀ p ∈ l
 
 /-- what `wfInput` says about one feature when the region runs over the origin -/
 def CrossOK (L : Int) (l : Loc) : Prop :=
-  (bridgesOrigin l = true → twoPart L l = true ∨ (l.len ≠ L ∧ oneStrand l = true)) ∧
-  (bridgesOrigin l = false → l.len ≤ l.end - l.start ∧ oneStrand l = true)
+  (bridgesOrigin l = true ∧ twoPart L l = true) ∨ (l.len ≠ L ∧ oneStrand l = true)
 
 /-- unpacking `wfInput` -/
 theorem wf_unpack (rd : RegionData) (rec : BioRecord) (h : wfInput rd rec = true) :
@@ -59,18 +58,8 @@ theorem wf_unpack (rd : RegionData) (rec : BioRecord) (h : wfInput rd rec = true
       exact ⟨this.1.1, this.1.2, this.2⟩
     · intro hc
       rw [hc] at hs
-      simp only [Bool.not_true, Bool.false_or] at hs
-      constructor
-      · intro hb
-        rw [hb] at hs
-        simp only [if_true, Bool.or_eq_true, Bool.and_eq_true, decide_eq_true_eq] at hs
-        rcases hs with hs | hs
-        · exact .inl hs
-        · exact .inr hs
-      · intro hb
-        rw [hb] at hs
-        simp only [Bool.false_eq_true, if_false, Bool.and_eq_true, decide_eq_true_eq] at hs
-        exact hs
+      simp only [Bool.not_true, Bool.false_or, Bool.or_eq_true, Bool.and_eq_true, decide_eq_true_eq] at hs
+      exact hs
 
 /-- a two-part origin-spanning location ends at the record's end -/
 theorem twoPart_end (L : Int) (l : Loc) (h : twoPart L l = true) (hL : 0 < L) : l.end = L := by
@@ -120,7 +109,7 @@ theorem cross_rotated (rd : RegionData) (L : Int) (l : Loc) (hL : 0 < L) (hst0 :
     (hne : l.parts ≠ []) (hparts : ∀ p ∈ l.parts, PartIn L p) (hb : bridgesOrigin l = true) (hok : CrossOK L l) :
     ∃ r, offsetLocation l (-rd.start) L = .ok r ∧
       ∀ i, (wholeFix L r).mem i = true ↔ (0 ≤ i ∧ i < L ∧ l.mem ((rd.start + i) % L) = true) := by
-  rcases hok.1 hb with htwo | ⟨hlen, hr1⟩
+  rcases hok with ⟨_, htwo⟩ | ⟨hlen, hr1⟩
   · exact twoPart_offset L rd.start l htwo hst0 hstL
   · obtain ⟨s, hs⟩ := oneStrand_unpack l hr1
     obtain ⟨r, hr, _, hrl, hmem⟩ := offset_rotates_general l (-rd.start) L s hne hparts hs (by omega) (by omega) (by omega) hlen
@@ -150,12 +139,9 @@ theorem origin_sameBases (rd : RegionData) (rec : BioRecord) (hwf : wfInput rd r
     have hok := hok hc
     -- the feature is shorter than the record and may be rotated by `L - start`
     have hrot : f.loc.len ≠ rec.length ∧ oneStrand f.loc = true := by
-      cases hb : bridgesOrigin f.loc with
-      | false => have := hok.2 hb; exact ⟨by omega, this.2⟩
-      | true =>
-        rcases hok.1 hb with htwo | ⟨hlen, hr2⟩
-        · have := twoPart_end _ f.loc htwo hL; omega
-        · exact ⟨hlen, hr2⟩
+      rcases hok with ⟨_, htwo⟩ | h
+      · have := twoPart_end _ f.loc htwo hL; omega
+      · exact h
     obtain ⟨s, hs⟩ := oneStrand_unpack f.loc hrot.2
     obtain ⟨r, hr, _, _, hmem⟩ := offset_rotates_general f.loc (rec.length - rd.start) rec.length s hne hparts hs
       (by omega) (by omega) (by omega) hrot.1
